@@ -422,8 +422,50 @@ def replay_get_path(r):
     return bool(bad), {'function': 'BaseMatcher.get_path / path_pred_onlynodes', 'failed': bad[:6]}
 
 
+def replay_inmem_nbrs(r):
+    """real InMemMap objects over three labels (neighbour lists with dangling references, a node without a location, one declared
+    link): nodes_nbrto / edges_nbrto of every node / edge against the abstract view written out as a reference"""
+    from leuvenmapmatching.map.inmem import InMemMap
+    from leuvenmapmatching.map.base import BaseMap
+    bad = []
+    locs = {0: (0.0, 0.0), 1: (0.0, 1.0), 2: (1.0, 1.0)}
+    graphs = [{0: (locs[0], [1]), 1: (locs[1], [0, 2]), 2: (locs[2], [])},
+              {0: (locs[0], [1, 7]), 1: (locs[1], [2, 1]), 2: (None, [0])},
+              {0: (locs[0], [2, 1]), 1: (locs[1], [0]), 2: (locs[2], [1, 0])}]
+    for gi, g in enumerate(graphs):
+        for linked in (None, {(0, 1): {(2, 1)}} if gi == 2 else {}):
+            m = InMemMap(f'replay{gi}', use_latlon=False, graph={k: (v[0], list(v[1])) for k, v in g.items()}, linked_edges=linked)
+            ref_n = lambda n: [(b, g[b][0]) for b in g[n][1] + [n] if b in g and g[b][0] is not None] if n in g else []
+            for n in list(g) + [9]:
+                if n in g and g[n][0] is None:
+                    continue
+                try:
+                    got = m.nodes_nbrto(n)
+                except Exception as e:
+                    got = f'raised {e!r}'
+                want = ref_n(n)
+                if not isinstance(got, list) or set(got) - set(want) or ('complete' in r.ob.name and set(want) - set(got)):
+                    bad.append(f"graph {g}: nodes_nbrto({n}) = {got}, abstract view {want}")
+            for a in g:
+                for b in g[a][1]:
+                    if b not in g or g[a][0] is None or g[b][0] is None:
+                        continue
+                    want = [(b, g[b][0], c, pc) for c, pc in ref_n(b)] + [(c, g[c][0], d, g[d][0]) for c, d in sorted((linked or {}).get((a, b), []))]
+                    for nm, f in (('InMemMap.edges_nbrto', lambda: m.edges_nbrto((a, b))), ('BaseMap.edges_nbrto', lambda: BaseMap.edges_nbrto(m, (a, b)))):
+                        w = want if nm.startswith('InMem') else want[:len(ref_n(b))]
+                        try:
+                            got = f()
+                        except Exception as e:
+                            got = f'raised {e!r}'
+                        if not isinstance(got, list) or set(got) - set(w) or ('complete' in r.ob.name and set(w) - set(got)):
+                            bad.append(f"graph {g}, links {linked}: {nm}(({a}, {b})) = {got}, abstract view {w}")
+    return bool(bad), {'function': 'InMemMap.nodes_nbrto / edges_nbrto', 'failed': bad[:6]}
+
+
 def replayer(r):
     n = r.ob.name
+    if n.startswith('InMemMap.nodes_nbrto') or n.startswith('InMemMap.edges_nbrto') or n.startswith('BaseMap.edges_nbrto'):
+        return replay_inmem_nbrs(r)
     if n.startswith('BaseMatcher.get_path') or n.startswith('BaseMatcher.path_pred_onlynodes'):
         return replay_get_path(r)
     if n.startswith('BaseMatcher.node_path_to_only_nodes'):
